@@ -78,6 +78,17 @@ def build_tables(dp):
             order = sorted(range(len(t["rows"])), key=lambda i: 0 if (t["rows"][i][li] is True or t["rows"][i][li] == 1) else 1)
             t["rows"] = [t["rows"][i] for i in order]
             t["meta"]["truth_correct"] = [t["meta"]["truth_correct"][i] for i in order]
+        if dp.get("whole_head"):
+            # a feature whose first rows hold whole numbers (a text reader typing a column from its first chunk sees ints)
+            wh = dp["whole_head"]
+            ci = t["columns"].index(f"feat{wh['idx'] % dp['n_features']}")
+            used = set()
+            for row in t["rows"][: wh["rows"]]:
+                v = float(round(row[ci]))
+                while v in used:  # (no exact ties among them: ties make a scenario uninformative)
+                    v += 1.0
+                used.add(v)
+                row[ci] = v
         if dp.get("nan_key") and "ExpMass" in t["columns"]:
             # spectra whose numeric key column (the measured mass) is missing: all their PSMs still form one spectrum
             r4 = random.Random(f"nankey|{dp['data_seed']}|{f}")
@@ -163,7 +174,8 @@ def run_pipeline(tables, cfg, workdir, name, fmt="pin", row_group=None, sched_de
     paths = []
     for i, t in enumerate(tables):
         p = root / f"file{i}{ext}"
-        world.materialise(t, p, fmt, row_group, dict_strings=dict_strings, index_start=index_start)
+        world.materialise(t, p, fmt, row_group, dict_strings=dict_strings, index_start=index_start,
+                          g_format=bool(cfg.get("g_format")))
         paths.append(p)
     res.paths = paths
     ti = tag_index(tables[0])
